@@ -133,6 +133,10 @@ theorem call_shape :
     Gen.Netref.makeMethodShapes.lookup "__call__" = some ("(*,**)", "syncreq", "self", "HANDLE_CALL", ["$*", "tuple(items($**))"]) := by
   decide
 
+/-- the proxy's `__call__` takes no keyword name for itself (observed on the real made method for `self`, `_self`,
+`args`, `kwargs`, ...): whatever keyword arguments the caller supplies are the ones `kwargs_preserved` is about -/
+theorem call_reserves_no_keyword : Gen.Netref.reservedKeywords = [] := by decide
+
 /-! ### non-vacuity: a concrete program meets the hypotheses and computes across the connection -/
 
 namespace Example
